@@ -772,10 +772,14 @@ Handler::ArgResult
                        noexcept( false)
 {
 
-   auto  p_arg_hdl = mSubGroupArgs.findArg( key);
+   // arguments and sub-group arguments share the keys of this handler: an
+   // exact key wins, an abbreviation must be unambiguous over both
+   bool  is_sub_group = false;
+   auto  p_arg_hdl = detail::ArgumentContainer::findArg( key, mSubGroupArgs,
+      mArguments, is_sub_group);
 
 
-   if (p_arg_hdl != nullptr)
+   if ((p_arg_hdl != nullptr) && is_sub_group)
    {
       handleIdentifiedArg( p_arg_hdl, key);
 
@@ -795,7 +799,7 @@ Handler::ArgResult
       return ArgResult::consumed;
    } // end if
 
-   mpLastArg = p_arg_hdl = mArguments.findArg( key);
+   mpLastArg = p_arg_hdl;
    if (p_arg_hdl == nullptr)
       return ArgResult::unknown;
 
